@@ -28,9 +28,11 @@ from spyne.model import SimpleModel
 from spyne.model.primitive import NATIVE_MAP
 
 FLOAT_PATTERN = r'-?[0-9]+\.?[0-9]*(e-?[0-9]+)?'
-DATE_PATTERN = r'(?P<year>\d{4})-(?P<month>\d{2})-(?P<day>\d{2})'
-TIME_PATTERN = r'(?P<hr>\d{2}):(?P<min>\d{2}):(?P<sec>\d{2})(?P<sec_frac>\.\d+)?'
-OFFSET_PATTERN = r'(?P<tz_hr>[+-]\d{2}):(?P<tz_min>\d{2})'
+# [0-9] and not \d, which also matches the digits of other scripts in text.
+DATE_PATTERN = r'(?P<year>[0-9]{4})-(?P<month>[0-9]{2})-(?P<day>[0-9]{2})'
+TIME_PATTERN = r'(?P<hr>[0-9]{2}):(?P<min>[0-9]{2}):(?P<sec>[0-9]{2})' \
+                                                   r'(?P<sec_frac>\.[0-9]+)?'
+OFFSET_PATTERN = r'(?P<tz_hr>[+-][0-9]{2}):(?P<tz_min>[0-9]{2})'
 DATETIME_PATTERN = DATE_PATTERN + '[T ]' + TIME_PATTERN
 
 
